@@ -6,19 +6,22 @@
 (* configuration (the algorithms are deterministic given read_n's          *)
 (* contract, C17).                                                         *)
 EXTENDS StreamFraming
-CONSTANTS Alphabet, MaxLen, Blocks, MaxSizes, BugF1
-VARIABLE c      \* [s, block, maxSize, limit]
+CONSTANTS Alphabet, MaxLen, Blocks, MaxSizes, SkipSets, StopSets, BugF1
+VARIABLE c      \* [s, block, maxSize, limit, skipAt, stopAt]
 Streams == UNION {[1..n -> Alphabet] : n \in 0..MaxLen}
-Init == \E s \in Streams, b \in Blocks, m \in MaxSizes, lim \in (0..MaxLen) \cup {1000000} :
+Init == \E s \in Streams, b \in Blocks, m \in MaxSizes, lim \in (0..MaxLen) \cup {1000000}, sk \in SkipSets, sp \in StopSets :
            /\ (lim <= Len(s) \/ lim = 1000000)
-           /\ c = [s |-> s, block |-> b, maxSize |-> m, limit |-> lim]
+           /\ c = [s |-> s, block |-> b, maxSize |-> m, limit |-> lim, skipAt |-> sk, stopAt |-> sp]
 Next == UNCHANGED c
 Spec == Init /\ [][Next]_c
 
 Chunks == PumpAll(CInit, c.s, c.block, BugF1, 3 * Len(c.s) + 6)
 ChunkerTiles == /\ TileComplaints(Chunks, c.s) = {}
                 /\ Chunks # << >> /\ Chunks[Len(Chunks)].k = "E"       \* Eof is reached
+J == [maxSize |-> c.maxSize, limit |-> c.limit, skipAt |-> c.skipAt, stopAt |-> c.stopAt]
 ReaderExact == BugF1 \/
-   AllRecords(CInit, c.s, c.block, c.maxSize, c.limit, 252, 64008, 253, Len(c.s) + 2)
-     = Records(c.s, c.maxSize, c.limit, 252, 64008, 253)
+   AllRecords(CInit, c.s, c.block, J, 252, 64008, 253, Len(c.s) + 2) = RecordsJ(c.s, J, 252, 64008, 253)
+\* the declarative definition of the records for the standard judge and the walk agree
+StdAgrees == (c.skipAt = {} /\ c.stopAt = {}) =>
+   RecordsJ(c.s, J, 252, 64008, 253) = Records(c.s, c.maxSize, c.limit, 252, 64008, 253)
 =============================================================================
